@@ -9,8 +9,10 @@
   the scheduled objects.
 
   In-place mutation that is observable and therefore modelled:
-  * `objectsToRemove` / `arraysToFix` are Go maps that live for the whole pass: entries made while
-    visiting one schema act on every later schema (keys are bare names);
+  * `objectsToRemove` / `arraysToFix` are Go maps keyed by bare names; since the /repo fix
+    "RemoveIntersections bookkeeping leaked from one schema into the next" they are cleared at the
+    start of every schema (`runFrom` restarts from the empty state; the former behaviour — state
+    threaded through the schemas — is kept as `runLeaky` with a witness in Props/C07);
   * phase (A) writes into `schema.Objects` while iterating, so a later alias of an alias sees the
     already-replaced struct;
   * phase (B) mutates the shared field slice: every object sharing it sees the rewrite, and is
@@ -116,14 +118,30 @@ def processSchema (s : Schema) (st : St) : Outcome (Schema × St) :=
     let objs'' := st'.toRemove.foldl (fun acc (k, _) => rdel k acc) objs'
     .ok ({ s with objects := objs'' }, st')
 
-def runFrom : Schemas → St → Outcome Schemas
+/-- the pass before the fix: the bookkeeping survives from one schema to the next -/
+def runLeakyFrom : Schemas → St → Outcome Schemas
   | [], _ => .ok []
   | s :: rest, st =>
     match processSchema s st with
     | .err e => .err e
     | .panic p => .panic p
     | .ok (s', st') =>
-      match runFrom rest st' with
+      match runLeakyFrom rest st' with
+      | .ok rest' => .ok (s' :: rest')
+      | .err e => .err e
+      | .panic p => .panic p
+
+def runLeaky (ss : Schemas) : Outcome Schemas := runLeakyFrom ss {}
+
+/-- current tree: `clear(...)` at the start of `processSchema` -/
+def runFrom : Schemas → St → Outcome Schemas
+  | [], _ => .ok []
+  | s :: rest, _ =>
+    match processSchema s {} with
+    | .err e => .err e
+    | .panic p => .panic p
+    | .ok (s', _) =>
+      match runFrom rest {} with
       | .ok rest' => .ok (s' :: rest')
       | .err e => .err e
       | .panic p => .panic p
